@@ -50,6 +50,14 @@ func runC02(c *Ctx, r *Rec) {
 	checkTypeLockPairing(c, r, "D1-lock-released", set)
 	checkNoDynamicEquality(c, r, "D1-no-dynamic-equality", fileFuncs(c, "collection", set))
 	checkUnsignedSizeMinus(c, r, "D1-unsigned-size-minus", fileFuncs(c, "collection", set))
+	// the order of the members is what the collator says: the shape rules read the collator too
+	{
+		fds := append(fileFuncs(c, "collection", set, cls), moduleFuncsReturning(c, "SetLike")...)
+		if coll, err := c.impl("agent", "CollatorLike"); err == nil && coll != nil {
+			fds = append(fds, fileFuncs(c, "agent", coll)...)
+		}
+		shapeLints(c, r, fds)
+	}
 	// the search helper: the private method returning (int, bool)
 	var search *ast.FuncDecl
 	for _, name := range sortedKeys(ms) {
